@@ -75,7 +75,7 @@ where
     }
 
     pub fn first_node(&self) -> Option<&Node<K, N, E>> {
-        self.edges.first().map(|e| &e.1)
+        self.edges.first().map(|e| &e.0)
     }
 
     pub fn last_edge(&self) -> Option<&Edge<K, N, E>> {
